@@ -5,6 +5,7 @@ wt=/tmp/seed/$1; dst=/verif/seeded/$2
 grep -q '"confirmed": true' $wt/seeded_out/confirm.json || { echo "not confirmed"; exit 1; }
 mkdir -p $dst
 cp $wt/seeded_out/patch.diff $wt/seeded_out/seeded_demo.rs $dst/
+[ -f $wt/seeded_out/patch.current-tree.diff ] && cp $wt/seeded_out/patch.current-tree.diff $dst/
 python3 - <<PY
 import json
 m=json.load(open("$wt/seeded_out/meta.json")); c=json.load(open("$wt/seeded_out/confirm.json"))
